@@ -23,6 +23,8 @@ def run(ctx):
     ctx.rule("R16.3", "a coordinate with a fractional part in raw units cannot reach an Ok return of the distance conversion")
     ctx.rule("R16.4", "every LEF geometry is imported as one shape or the import fails")
     ctx.rule("R16.5", "the scale factor and the Units the importer reports are the same row of the SI table")
+    from rules import convrules as cv
+    cv.run(ctx, "R16.7", ("layout21raw::lef::",), {"p": 10, "t": 3, "w": 5})
     n_anchor = 0
     # ---- R16.1
     for f in select(F, PFX, [IMP, r"^&lef21::LefPoint$"], r"Result<geom::Point,"):
